@@ -77,8 +77,8 @@ func confirmAndShrink(bin string, id string, c candidate, tier string) (string, 
 			return "", false, "replay of the generated spec did not show the signature"
 		}
 	}
-	if !isRace && c.o.res != nil && o.res != nil && v.EventSeq != c.v.EventSeq {
-		return "", false, fmt.Sprintf("event sequence differs on replay: %d vs %d", v.EventSeq, c.v.EventSeq)
+	if !isRace && c.o.res != nil && o.res != nil && v.SimTimeMs != c.v.SimTimeMs {
+		return "", false, fmt.Sprintf("violation instant differs on replay: %dms vs %dms", v.SimTimeMs, c.v.SimTimeMs)
 	}
 	best := spec
 	bestV := *v
